@@ -19,6 +19,7 @@ from __future__ import annotations
 import hashlib
 import json
 import operator
+import threading
 import time
 
 import numpy as np
@@ -75,7 +76,7 @@ def stamp(detector, slot: int = 0, delay_ms: float = 0.0, **kwargs) -> None:
     fp = fingerprint(kwargs)
     if delay_ms:
         time.sleep((int(fp) % 7) * float(delay_ms) / 1000.0)
-    LOG.append(("stamp", int(slot), canon_text(kwargs), fp))
+    LOG.append(("stamp", int(slot), canon_text(kwargs), fp, threading.get_ident()))
     _put(detector, slot, fp)
 
 
@@ -86,17 +87,21 @@ def fields(detector, slot: int = 0, names=()) -> None:
         v = float(operator.attrgetter(name)(detector))
         vals.append(v)
         _put(detector, slot + i, v)
-    LOG.append(("fields", int(slot), canon_text(list(names)), vals))
+    LOG.append(("fields", int(slot), canon_text(list(names)), vals, threading.get_ident()))
 
 
-def draw(detector, slot: int = 0, delay_ms: float = 0.0, n: int = 1) -> None:
-    """pixel[slot] = sum of n draws of numpy's process-wide generator (integers < 2**20, exact)"""
+def draw(detector, slot: int = 0, delay_ms: float = 0.0, n: int = 1, seed=None) -> None:
+    """pixel[slot] = sum of n draws of numpy's process-wide generator (integers < 2**20, exact); with `seed` the
+    draws happen inside `set_random_seed(seed)` like a seeded pyxel model, else under the run's pipeline seed"""
+    from pyxel.util import set_random_seed
+
     tot = 0
-    for _ in range(int(n)):
-        tot += int(np.random.randint(0, 2**20))
-        if delay_ms:
-            time.sleep(float(delay_ms) / 1000.0)
-    LOG.append(("draw", int(slot), tot))
+    with set_random_seed(seed):
+        for _ in range(int(n)):
+            tot += int(np.random.randint(0, 2**20))
+            if delay_ms:
+                time.sleep(float(delay_ms) / 1000.0)
+    LOG.append(("draw", int(slot), "", float(tot), threading.get_ident()))
     _put(detector, slot, float(tot))
 
 
@@ -127,3 +132,15 @@ def fail_if(detector, slot: int = 0, bad=None, value=None) -> None:
     if bad is not None and canon_text(value) == canon_text(bad):
         raise ValueError(f"obsprobes.fail_if: value {value!r} is the failing one")
     _put(detector, slot, fingerprint({"value": value}))
+
+
+def level(detector, level: float = 0.0, tilt: float = 0.0, delay_ms: float = 0.0, noise: float = 0.0) -> None:
+    """calibration probe: pixel = level + tilt·column (+ noise·uniform draws of the process-wide generator);
+    data-dependent delay to perturb the completion order of the candidates"""
+    rows, cols = detector.geometry.shape
+    arr = float(level) + float(tilt) * np.arange(cols, dtype=float)[None, :] * np.ones((rows, 1))
+    if noise:
+        arr = arr + float(noise) * np.random.random((rows, cols))
+    if delay_ms:
+        time.sleep((int(abs(float(level)) * 1000) % 5) * float(delay_ms) / 1000.0)
+    detector.pixel.array = arr
